@@ -131,6 +131,10 @@ def obligations(tier):
     obls.append(Obl("grid[to_zarr-path]", _mk(SG.b_store_path, ["n", "c"]), [("n", 1, N), ("c", 1, N)] + P[:1], bounds=f"n, chunk <= {N}", **common))
     obls.append(Obl("grid[store-sharded-target]", _mk(SG.b_store_sharded, ["n", "c", "sh"]), [("n", 1, N), ("c", 1, N), ("sh", 1, N)] + P[:1],
                     bounds=f"n, source chunk, shard size <= {N}", witness_rule=lambda m: m["c"] != m["sh"], **common))
+    obls.append(Obl("grid[store-sharded-target,inner-chunks]", _mk(SG.b_store_sharded_inner, ["n", "c", "ic", "k", "a", "use_region"]),
+                    [("n", 1, N), ("c", 1, N), ("ic", 1, 3), ("k", 1, 3), ("a", 0, 6), ("use_region", 0, 1)] + P[:1],
+                    bounds=f"n, source chunk <= {N}; inner chunks 1..3, shards of 1..3 inner chunks; whole store or a region at offset 0..6",
+                    witness_rule=lambda m: m["k"] >= 2, **common))
     for name in ("sum", "concat", "index[slice]", "subtract[different-chunks]", "unstack", "repeat"):
         _, vs = c01.SCENARIOS[name]
         obls.append(Obl(f"grid[{name}]", _catalogue(name), vs(6) + P, bounds="as C01", **common))
